@@ -435,6 +435,11 @@ func (s *Server) verifyVotes(cd *commonData, votes []SingleVote, asig []byte, st
 
 			addr = crypto.PubkeyToAddress(*pubKey)
 			validator = cd.lbVld.GetValidatorByMainAddr(addr)
+			if validator == nil {
+				// the signature recovers to a key that is not a validator's
+				logging.Error("VerifyHeader UconValidators failed. signer is not a validator.", "addr", addr.String())
+				continue
+			}
 		}
 		if staData[addr] == true {
 			continue
